@@ -289,6 +289,7 @@ class FakeProcess(object):
         s.yield_point()
         if self.kind == 'dispatch':
             w.granted[self.uid] = copy.deepcopy(self.args[0].get('slots'))
+            w.grant_order.append(self.uid)
             if w.payload(self.uid) == 'nofork':
                 raise OSError(11, 'Resource temporarily unavailable (injected)')
         self.pid      = w.next_pid()
@@ -312,6 +313,9 @@ class FakeProcess(object):
                 me.unwinding = True
                 raise Killed()
             self.target(*self.args, **self.kwargs)
+            # the target has returned, the process is still there: interpreter
+            # and queue feeder shut down before the parent sees it gone
+            s.yield_point()
             self.exitcode = 0
         except SystemExit as e:
             self.exitcode = e.code if isinstance(e.code, int) else \
@@ -490,6 +494,7 @@ class World(object):
         self.timed    = list()          # pending join(timeout) records
         self.results  = list()          # what went back to the master
         self.granted  = dict()          # uid -> slots at dispatch start
+        self.grant_order = list()
         self.running  = dict()          # uid -> slots while the payload runs
         self.ran      = list()          # (uid, slots) of every payload start
         self.flaws    = list()          # in-flight violations
@@ -726,15 +731,18 @@ def judge(part, world):
         if isinstance(e, KeyError) and e.args:
             uid = world.pid_uid.get(e.args[0])
         n_put = sum(1 for p in world.procs if p.uid == uid) if uid else 0
-        viol('watcher-alive', 'DefaultWorker._result_cb',
-             '%s:%s' % (type(e).__name__,
-                        world.payload(uid) if uid else '?'),
+        viol('watcher-alive',
+             'DefaultWorker._dispatch' if uid else
+             'DefaultWorker._result_watcher',
+             'second-result:%s' % world.payload(uid) if uid else
+             type(e).__name__,
              'the result watcher thread died with %r%s; results of later '
              'requests are never collected'
              % (e, ' while handling a second result for %s (%s)'
                    % (uid, world.reqs[uid]) if uid else ''))
 
     per_uid = dict()
+    starved = list()
     for uid in uids:
         res = [r for r in world.results if r['uid'] == uid]
         per_uid[uid] = res
@@ -742,6 +750,10 @@ def judge(part, world):
         if uid in refused or uid in unreached:
             continue
         if watcher_dead:
+            continue
+        if uid not in world.granted:
+            # never got its allocation: judged below (`stuck`)
+            starved.append(uid)
             continue
         if len(res) != 1:
             viol('result-count', site_of(pl), '%s:n=%d' % (pl, len(res)),
@@ -773,15 +785,17 @@ def judge(part, world):
         busy_c = [i for i, x in enumerate(w._resources['cores']) if x]
         busy_g = [i for i, x in enumerate(w._resources['gpus'])  if x]
         if busy_c or busy_g:
-            # whose are they?
-            owners = list()
-            for uid, slots in world.granted.items():
+            # whose are they?  the last request each one was granted to
+            last = dict()
+            for uid in world.grant_order:
                 try:
-                    if set(slots[0]['cores']) & set(busy_c) or \
-                       set(slots[0]['gpus'])  & set(busy_g):
-                        owners.append(uid)
+                    for c in world.granted[uid][0]['cores']: last['c', c] = uid
+                    for g in world.granted[uid][0]['gpus'] : last['g', g] = uid
                 except Exception:
                     pass
+            owners = sorted(set([last[k] for k in [('c', c) for c in busy_c] +
+                                                  [('g', g) for g in busy_g]
+                                         if k in last]))
             cls = sorted(set(world.payload(u) for u in owners)) or ['?']
             viol('resources-returned', site_of(cls[0]), '+'.join(cls),
                  'at quiescence cores %s gpus %s are still marked busy '
@@ -806,11 +820,14 @@ def judge(part, world):
                      '%s:%s' % (type(p.error).__name__, world.payload(p.uid)),
                      'dispatch process of %s ended with %r' % (p.uid, p.error))
 
-    if world.end == 'deadlock' and not found:
+    if (world.end == 'deadlock' or starved) and not found:
+        # requests which wait for an allocation although nothing else went
+        # wrong (otherwise they are a consequence of what is reported above)
         stuck = [(t.name, t.where) for t in s.threads
                  if t.state != rs.DONE and not t.daemon]
-        viol('stuck', 'DefaultWorker', world.demand_trigger(),
-             'threads cannot proceed: %s' % stuck)
+        viol('stuck', 'DefaultWorker._request_cb', world.demand_trigger(),
+             'requests %s never got their allocation; threads which cannot '
+             'proceed: %s' % (starved, stuck))
 
     obs = tuple((u, world.reqs[u]['demand'], world.payload(u),
                  'refused' if u in refused else
@@ -842,29 +859,39 @@ def scenarios(quick):
 
     R = lambda d, p, a=False: {'demand': d, 'payload': p, 'async': a}
 
-    # F1: one request, every demand x every outcome, both dispatcher kinds,
-    #     line-level scheduling points in the fake processes as well
+    # F1: one request, every demand x every outcome, both dispatcher kinds;
+    #     with line-level scheduling points in the fake processes as well
     for cores, gpus in ((2, 0), (2, 1)):
         for d in ('1c', '2c', '1c1g', 'ncng', 'over'):
             if gpus == 0 and d == 'ncng':
                 continue
             for p in PAYLOADS:
-                add('one', cores, gpus, [R(d, p)], lines='all', bound=2)
+                add('one', cores, gpus, [R(d, p)], lines='all',
+                    bound=1 if quick else 2)
+                deep = gpus == 1 and d in ('1c', 'ncng') and \
+                       p in ('ok', 'ok/t', 'hang/t', 'nofork')
+                add('one', cores, gpus, [R(d, p)],
+                    bound=(2 if deep else 1) if quick else 3)
         for p in PAYLOADS:
-            add('one', cores, gpus, [R('1c', p, True)], lines='all', bound=2)
+            add('one', cores, gpus, [R('1c', p, True)], lines='all', bound=1)
+            add('one', cores, gpus, [R('1c', p, True)],
+                bound=1 if quick else 2)
 
     # F2: two requests in one stream: every demand pair x every outcome pair
-    dem2 = ('1c', '2c', '1c1g', 'over')
+    dem2  = ('1c', '2c', '1c1g', 'over')
+    core2 = ('ok', 'hang/t', 'ok/t', 'nofork')
     for d1 in dem2:
         for d2 in dem2:
             for p1 in PAYLOADS:
                 for p2 in PAYLOADS:
-                    if quick and d1 == 'over' and p1 != 'ok':
+                    if d1 == 'over' and p1 != 'ok':
                         continue      # a refused request never runs
-                    if quick and d2 == 'over' and p2 != 'ok':
+                    if d2 == 'over' and p2 != 'ok':
                         continue
+                    deep = not quick and p1 in core2 and p2 in core2 \
+                           and 'over' not in (d1, d2)
                     add('two', 2, 1, [R(d1, p1), R(d2, p2)],
-                        bound=1 if quick else 2)
+                        bound=2 if deep else 1)
 
     # F3: three requests
     dem3 = [('1c', '1c', '1c'), ('1c', '2c', '1c'), ('2c', '1c', '1c'),
@@ -879,21 +906,19 @@ def scenarios(quick):
                         continue
                     add('three', 2, 1, [R(ds[0], p1), R(ds[1], p2),
                                         R(ds[2], p3)], bound=1)
-    if not quick:
-        for ds in (('1c', '1c', 'nc'), ('nc', '1c', '1c'),
-                   ('1c1g', 'ncng', '1c')):
-            for p in ('ok', 'hang/t'):
-                add('three', 3, 1, [R(ds[0], p), R(ds[1], 'ok'),
-                                    R(ds[2], 'ok')], bound=1)
+    for ds in (('1c', '1c', 'nc'), ('nc', '1c', '1c'), ('1c1g', 'ncng', '1c')):
+        for p in ('ok', 'hang/t'):
+            add('three', 3, 1, [R(ds[0], p), R(ds[1], 'ok'),
+                                R(ds[2], 'ok')], bound=1)
 
     # F4: two concurrent request streams (the allocation must be atomic)
     for d1 in ('1c', '2c', '1c1g'):
         for d2 in ('1c', '2c', '1c1g'):
             for p in ('ok', 'hang/t'):
                 add('streams', 2, 1, [R(d1, p), R(d2, 'ok')],
-                    streams=[[0], [1]], bound=2)
+                    streams=[[0], [1]], bound=1 if quick else 2)
     add('streams', 2, 1, [R('1c', 'ok'), R('1c', 'ok'), R('1c', 'ok')],
-        streams=[[0, 1], [2]], bound=1 if quick else 2)
+        streams=[[0, 1], [2]], bound=1)
     return out
 
 
@@ -965,7 +990,7 @@ def run(ctx):
     import multiprocessing
     _slot = multiprocessing.get_context('fork').Value('i', 0)
     _scns = scenarios(ctx.quick)
-    cap   = 4000 if ctx.quick else 40000
+    cap   = 20000 if ctx.quick else 60000
     for s in _scns:
         s['max_exec'] = cap
     errs = list()
